@@ -6,7 +6,8 @@
 
    Objects:  ts[i]   a PyThreadState  [st, cnt = gilstate_counter, dict = the canary stored under
                      "cffi.thread.canary" in tstate->dict (0: none), loc = Python thread-local datum]
-             cn[i]   the ThreadCanaryObj of tstate i  [st, tls = ob->tls (0: NULL), inz = in zombie list]
+             cn[i]   the ThreadCanaryObj of tstate i  [st, tls = ob->tls (0: NULL), inz = in zombie list,
+                     rc = reference count: 1 (owned by tstate->dict) after thread_canary_register]
                      (ob->tstate is i itself)
              tlsb[f] the struct cffi_tls_s of thread f ("none" / "alloc" / "freed"),
              tlscan[f] its field local_thread_canary (0: NULL)
@@ -38,6 +39,8 @@
      "nolock"        cffi_thread_shutdown does not take TLS_ZOM_LOCK
      "nonull"        thread_canary_dealloc does not reset tls->local_thread_canary
      "nodetach"      thread_canary_dealloc does not unlink a zombie canary from the list
+     "extraref"      thread_canary_register keeps its own reference to the canary (no Py_DECREF after
+                     PyDict_SetItemString): the canary is not deallocated when the dict drops it
    Atomic = TRUE restricts interleaving to whole operations (a thread that is inside gil_ensure /
    gil_release / thread exit runs alone until it reaches idle, body or done): this is the instance
    whose complete graph is replayed on the real code. *)
@@ -53,7 +56,7 @@ Exec == Foreign \cup {Main}
 TsIds == {f * 10 + n : f \in Foreign, n \in 1..MaxTs}
 Owner(i) == i \div 10
 NoTs == [st |-> "free", cnt |-> 0, dict |-> 0, loc |-> <<>>]
-NoCn == [st |-> "free", tls |-> 0, inz |-> FALSE]
+NoCn == [st |-> "free", tls |-> 0, inz |-> FALSE, rc |-> 0]
 
 Init == /\ pc = [f \in Foreign |-> "unborn"]
         /\ calls = [f \in Foreign |-> 0]
@@ -143,8 +146,9 @@ Fz3(f) == /\ Can(f) /\ pc[f] = "fz3"
              IF ts[i].st # "alive" THEN Fail("PyThreadState_Clear on a cleared or deleted tstate")
              ELSE /\ ts' = [ts EXCEPT ![i].st = "cleared", ![i].dict = 0, ![i].loc = <<>>]
                   /\ vc' = [vc EXCEPT ![f] = ts[i].dict]
-                  /\ Goto(f, IF ts[i].dict = 0 THEN "fz4" ELSE "cd1")
-                  /\ UNCHANGED <<calls, gil, zlock, tss, tlsb, tlscan, cn, zl, vt, doomed, err, seen, pre, nclear, shape, mpc>>
+                  /\ cn' = IF ts[i].dict = 0 THEN cn ELSE [cn EXCEPT ![ts[i].dict].rc = @ - 1]
+                  /\ Goto(f, IF ts[i].dict = 0 \/ cn[ts[i].dict].rc > 1 THEN "fz4" ELSE "cd1")
+                  /\ UNCHANGED <<calls, gil, zlock, tss, tlsb, tlscan, zl, vt, doomed, err, seen, pre, nclear, shape, mpc>>
 
 \* thread_canary_dealloc by executor p (a foreign thread inside free_zombies, or Main)
 Cd1(p) == /\ CanP(p) /\ (IF p = Main THEN mpc = "cd1" ELSE pc[p] = "cd1") /\ zlock = 0 /\ zlock' = p
@@ -158,7 +162,7 @@ Cd2(p) == /\ CanP(p) /\ (IF p = Main THEN mpc = "cd2" ELSE pc[p] = "cd2")
              ELSE /\ zl' = IF cn[c].inz /\ Variant # "nodetach" THEN Remove(zl, c) ELSE zl
                   /\ tlscan' = IF cn[c].tls # 0 /\ Variant # "nonull"
                                  THEN [tlscan EXCEPT ![cn[c].tls] = 0] ELSE tlscan
-                  /\ cn' = [cn EXCEPT ![c] = [st |-> "freed", tls |-> 0, inz |-> FALSE]]
+                  /\ cn' = [cn EXCEPT ![c] = [st |-> "freed", tls |-> 0, inz |-> FALSE, rc |-> 0]]
                   /\ zlock' = 0
                   /\ IF p = Main THEN mpc' = "mdel" /\ UNCHANGED pc ELSE Goto(p, "fz4") /\ UNCHANGED mpc
                   /\ UNCHANGED <<calls, gil, tss, tlsb, ts, vt, vc, doomed, err, seen, pre, nclear, shape>>
@@ -175,7 +179,8 @@ Rg1(f) == /\ Can(f) /\ pc[f] = "rg1"
 
 Rg2(f) == /\ Can(f) /\ pc[f] = "rg2"
           /\ LET i == tss[f] IN
-               /\ cn' = [cn EXCEPT ![i] = [st |-> "alive", tls |-> f, inz |-> FALSE]]
+               /\ cn' = [cn EXCEPT ![i] = [st |-> "alive", tls |-> f, inz |-> FALSE,
+                                             rc |-> IF Variant = "extraref" THEN 2 ELSE 1]]   \* Py_DECREF(canary) (:217)
                /\ ts' = [ts EXCEPT ![i].dict = i,
                                    ![i].cnt = IF Variant = "nokeepalive" THEN @ ELSE @ + 1]
                /\ tlscan' = [tlscan EXCEPT ![f] = i]
@@ -210,7 +215,7 @@ Gr1(f) == /\ Can(f) /\ pc[f] = "gr1"
                        ELSE \* the counter drops to 0: PyThreadState_Clear + DeleteCurrent; the canary
                             \* is deallocated on the way (only broken variants get here)
                             /\ ts' = [ts EXCEPT ![i] = [st |-> "deleted", cnt |-> 0, dict |-> 0, loc |-> <<>>]]
-                            /\ cn' = [cn EXCEPT ![i] = [st |-> "freed", tls |-> 0, inz |-> FALSE]]
+                            /\ cn' = [cn EXCEPT ![i] = [st |-> "freed", tls |-> 0, inz |-> FALSE, rc |-> 0]]
                             /\ tlscan' = [tlscan EXCEPT ![f] = 0]
                             /\ tss' = [tss EXCEPT ![f] = 0]
                   /\ gil' = 0 /\ calls' = [calls EXCEPT ![f] = @ + 1] /\ Goto(f, "idle")
@@ -252,8 +257,9 @@ MClear(i) == /\ CanM /\ mpc = "m1" /\ nclear < NClear /\ i \in Victims
              /\ vt' = [vt EXCEPT ![Main] = i]
              /\ ts' = [ts EXCEPT ![i].st = "cleared", ![i].dict = 0, ![i].loc = <<>>]
              /\ vc' = [vc EXCEPT ![Main] = ts[i].dict]
-             /\ mpc' = IF ts[i].dict = 0 THEN "mdel" ELSE "cd1"
-             /\ UNCHANGED <<pc, calls, gil, zlock, tss, tlsb, tlscan, cn, zl, err, seen, pre, shape>>
+             /\ cn' = IF ts[i].dict = 0 THEN cn ELSE [cn EXCEPT ![ts[i].dict].rc = @ - 1]
+             /\ mpc' = IF ts[i].dict = 0 \/ cn[ts[i].dict].rc > 1 THEN "mdel" ELSE "cd1"
+             /\ UNCHANGED <<pc, calls, gil, zlock, tss, tlsb, tlscan, zl, err, seen, pre, shape>>
 MDel == /\ CanM /\ mpc = "mdel"
            /\ IF ts[vt[Main]].st \notin {"alive", "cleared"} THEN Fail("PyThreadState_Delete twice (Main)")
               ELSE /\ ts' = [ts EXCEPT ![vt[Main]].st = "deleted"] /\ mpc' = "m1"
